@@ -378,6 +378,9 @@ pub enum Step {
     /// like `WaitHeld`, with a second trap (`trap 'mark U $?' USR2`) and USR1 and USR2 raised at the
     /// same instant: both actions must run, once each, before the command after `wait`
     WaitHeld2(u8),
+    /// like `WaitHeld`, with a SIGCHLD (as any other child, or `kill -s CHLD`, may cause at any
+    /// time) arriving in the same instant as USR1: the trap must interrupt `wait` all the same
+    WaitHeldChld(u8),
 }
 
 /// expected `$?` of a mark that follows the interrupted `wait`: any value > 128, the same the
@@ -401,8 +404,8 @@ fn check_deliver(c: &DeliverCase) -> Outcome {
     // expected (without asynchronous delivery): sequence of (marker, status)
     let mut expect: Vec<(String, i32)> = vec![];
     let mut status = 0;
-    let held = c.raise_at.is_none() && c.interactive_pipe.is_none() && c.steps.iter().any(|s| matches!(s, Step::WaitHeld(_) | Step::WaitHeld2(_)));
-    let held_both = held && matches!(c.steps.iter().find(|s| matches!(s, Step::WaitHeld(_) | Step::WaitHeld2(_))), Some(Step::WaitHeld2(_)));
+    let held = c.raise_at.is_none() && c.interactive_pipe.is_none() && c.steps.iter().any(|s| matches!(s, Step::WaitHeld(_) | Step::WaitHeld2(_) | Step::WaitHeldChld(_)));
+    let held_both = held && matches!(c.steps.iter().find(|s| matches!(s, Step::WaitHeld(_) | Step::WaitHeld2(_) | Step::WaitHeldChld(_))), Some(Step::WaitHeld2(_)));
     if held_both {
         script.push_str("trap 'mark U $?' USR2\n");
     }
@@ -412,7 +415,7 @@ fn check_deliver(c: &DeliverCase) -> Outcome {
             continue; // one kind of delivery per case keeps the attribution of T entries unambiguous
         }
         match s {
-            Step::WaitHeld(n) | Step::WaitHeld2(n) => {
+            Step::WaitHeld(n) | Step::WaitHeld2(n) | Step::WaitHeldChld(n) => {
                 if held && !held_done {
                     held_done = true;
                     script.push_str(&format!("( hold; st {n} ) &\nmark W\nwait $!\nmark A\nrelease\nwait $!\n"));
@@ -487,6 +490,7 @@ fn check_deliver(c: &DeliverCase) -> Outcome {
     if held {
         s.raise_usr1_when_blocked_after = Some("W".into());
         s.raise_usr2_too = held_both;
+        s.raise_chld_too = matches!(c.steps.iter().find(|s| matches!(s, Step::WaitHeld(_) | Step::WaitHeld2(_) | Step::WaitHeldChld(_))), Some(Step::WaitHeldChld(_)));
         s.preempt = true;
         s.drain = true; // let the released child end
     }
@@ -871,6 +875,7 @@ fn arb_step() -> impl Strategy<Value = Step> {
         2 => Just(Step::Read),
         2 => (0u8..4).prop_map(Step::WaitHeld),
         1 => (0u8..4).prop_map(Step::WaitHeld2),
+        1 => (0u8..4).prop_map(Step::WaitHeldChld),
     ]
 }
 
